@@ -230,7 +230,8 @@ AGG_NAMES = ["all", "any", "sum", "min", "max", "list", "tuple", "set", "dict", 
              "nsmallest"]
 
 RAW_EXACT = [0, 1, 2, -1, True, False, 0.5, 2.0, -0.0, ["F", 1, 2], ["F", 3, 1]]
-RAW_INEXACT = [["f", "0.1"], ["f", "0.2"], ["f", "0.3"], ["f", "1e16"], ["f", "-1e16"], ["f", "1.0"], ["f", "1e-16"], 3]
+RAW_INEXACT = [["f", "0.1"], ["f", "0.2"], ["f", "0.3"], ["f", "1e16"], ["f", "-1e16"], ["f", "1.0"], ["f", "1e-16"], 3,
+               ["f", "inf"], ["f", "-inf"], ["f", "1e308"], ["f", "-0.0"], ["f", "1e308"]]
 RAW_UNORDERABLE = [0, 1, "a", "b", None, ["T", 1, 2], 2.5]
 RAW_UNHASHABLE = [0, 1, ["L", 1], "a", ["T", 1, ["L", 2]]]
 RAW_TOUCHY = [["X", 1, None], ["X", 2, None], ["X", 0, None], ["X", 1, None], ["X", 1, "ValueError"], ["X", 3, "KeyError"],
@@ -297,7 +298,7 @@ def agg_spec(rng: random.Random, name: str, maxlen: int = 8) -> dict:
             pool = {"exact": RAW_EXACT, "inexact": RAW_INEXACT, "unorderable": RAW_UNORDERABLE, "nan": RAW_NAN}.get(cls, RAW_EXACT)
             spec["srcs"] = [raw_seq(rng, pool, maxlen)]
             if rng.random() < 0.4:
-                spec["params"]["start"] = ["raw", rng.choice([0, 1, 0.5, ["F", 1, 3], ["f", "0.1"]])]
+                spec["params"]["start"] = ["raw", rng.choice([0, 1, 0.5, ["F", 1, 3], ["f", "0.1"], ["f", "-0.0"], ["f", "inf"]])]
         return spec
     if name in ("min", "max"):
         if cls in ("items", "inexact"):
